@@ -36,7 +36,7 @@ RULE = ("Each case = one corpus module, a pool of 3-7 test cases (produced by th
         "distinct = distinct history digest.")
 ASSUMPTIONS = [
     "corpus functions used are deterministic and stateless across executions (stateful ones are not called)",
-    "a pool member whose in-process simulated duration lies within [0.4, 2.5] x its timeout bound is counted inconclusive "
+    "a pool member whose in-process simulated duration lies within [0.7, 1.5] x its timeout bound is counted inconclusive "
     "for the timeout flag (both outcomes are legal there), never as a violation",
     "the forked child is scheduled by the real OS, but every decision that depends on time uses the simulated clock "
     "(child elapsed time is reported on a side pipe before the result is sent), so the outcome is independent of it",
@@ -332,7 +332,8 @@ def _loopy_desc(rng) -> dict:
         return {"kind": kind, "calls": calls}
     if kind == "mixed":
         calls = [rng.choice(term)() for _ in range(rng.randrange(1, 3))]
-        calls.insert(rng.randrange(len(calls) + 1), ["nap_then_work", rng.choice([0.1, 0.2]), rng.randrange(0, 12)])
+        # naps between the per-statement time and the bound of a multi-statement test: legal for both replicas
+        calls.insert(rng.randrange(len(calls) + 1), ["nap_then_work", rng.choice([0.1, 0.2, 1.2, 1.6]), rng.randrange(0, 12)])
         return {"kind": kind, "calls": calls}
     return {"kind": "term", "calls": [rng.choice(term)() for _ in range(rng.randrange(1, 4))]}
 
@@ -614,7 +615,7 @@ def run_case(case: dict) -> dict:
         if sa["timeout"] != sb["timeout"]:
             dur = duration_of(entry)
             bound = min(kn["max_timeout"], kn["per_stmt"] * entry["tc"].size())
-            if dur is not None and 0.4 * bound <= dur <= 2.5 * bound + 1:
+            if dur is not None and 0.7 * bound <= dur <= 1.5 * bound + 1:
                 run.probes["inconclusive_timeout"] += 1
                 return
             violation = {"signature": f"{phase}:timeout-flag-differs",
@@ -705,7 +706,7 @@ def run_case(case: dict) -> dict:
                     t = entry["tc"].clone()
                     dur = duration_of(entry)
                     bound = min(kn["max_timeout"], kn["per_stmt"] * t.size())
-                    if dur is None or dur > 0.4 * bound:
+                    if dur is None or dur > 0.6 * bound:
                         asserted[i] = t
                         continue
                     sch.watch_deadline = clock.ns + 3600 * 10**9
